@@ -93,11 +93,11 @@ def obligations(tier):
             nmin, nmax = (0, 5) if full else (2, 3)
             obs.append(insn_ob(tier, "insn.switch", code, nmin, nmax))
         elif code in BO:
-            groups = [(0, "nothing", 2, 1, False), (1, "a placeholder insn (opcode only) with any of the 8 overflow opcodes, add or invalid-insn", 3, 1, True),
-                      (2, "two real insns: one of {subos; mov reg,reg}, {addo; mov reg,imm}, {mulos; mov reg,reg}, {umulo; mov reg,reg}", 4, 3, True)]
+            # H_PREV_GROUP=2 (a real `mov b, a|0` between the overflow insn and the branch) exists in the harness but is NOT run: with all
+            # three insns on the heap CBMC needs > 29 GB; with a placeholder overflow insn it answers in 14 s CPU but reads
+            # prev_insn->ops[1].mode through a pointer it loaded from heap cells imprecisely - counterexamples that do not replay natively.
+            groups = [(0, "nothing", 2, 1, False), (1, "a placeholder insn (opcode only) with any of the 8 overflow opcodes, add or invalid-insn", 3, 1, True)]
             for grp, gtxt, nin, mo, acc in groups:
-                if grp == 2 and not (full or code == "BO"):
-                    continue   # quick tier: the register-move separation once (bo); thorough: all four branches
                 nmin, nmax = (0, MAXN) if full and grp == 0 else (ar, ar)
                 obs.append(insn_ob(tier, "insn.%s.prev%d" % (code.lower(), grp), code, nmin, nmax, ["H_PREV_GROUP=%d" % grp],
                                    ninsns=nin, prevwalk=nin, maxops=mo, accept=acc, what="; preceded by " + gtxt, timeout=2400))
@@ -156,8 +156,9 @@ META = {
         "function": "fn (i64 a) with locals i64 b, f f, d d, ld l, one label; result types per obligation variant",
         "prototypes": "4 variants (results, scalar/blk/rblk args, vararg)", "hash table model capacity": 6,
         "overflow branches": "preceded by nothing or by ONE placeholder insn (opcode only, no operands) with any overflow opcode / add / "
-                             "invalid-insn; the 'separated only by register moves' part of the rule is NOT covered (a second and third "
-                             "heap insn made CBMC exceed 12 GB)",
+                             "invalid-insn; the 'separated only by register moves' part of the rule is NOT covered: addo; mov; bo all on the "
+                             "heap needs > 29 GB, and with a placeholder addo + real mov CBMC 6.11 misreads prev_insn->ops[1].mode through a "
+                             "pointer loaded from heap cells (counterexamples that do not replay natively)",
     },
     "assumptions": [
         "library state (context, module, function, register tables, prototype, import, label) CONSTRUCTED DIRECTLY as static data in "
@@ -176,10 +177,12 @@ META = {
         "operands are accepted; register names of the form t<number> (forbidden by MIR.md) are accepted by MIR_new_func_reg; "
         "a wrong number of ret operands / jret in a function with results / va_start outside a vararg function are reported with "
         "MIR_vararg_func_error (any code is accepted for these)",
-        "the per-opcode obligations EXCLUDE (assume away) exactly the instruction forms of the known findings - laddr with an immediate/ref/str "
-        "output; va_list operand given as undefined-type memory; call/inline/jcall whose callee is a prototype reference or block-type memory; "
-        "addr/addr8/addr16/addr32 whose 2nd operand is an immediate/label/ref/str; jcall instructions whose only defects are operand value "
-        "types/outputs, and jcall with 6 operands - each form is the sole content of an obligation 'finding.*' that is expected to be violated",
+        "the per-opcode obligations EXCLUDE (assume away) exactly one instruction form, the still-open known finding: a va_list operand "
+        "(va_start/va_end op 1, va_arg/va_block_arg op 2) given as memory of undefined type, which MIR.md allows and MIR_finish_func rejects; "
+        "that form is the sole content of the four obligations finding.va_*-undef-mem, which are expected to be violated",
+        "the forms of the findings repaired in /repo (commits d9fc5f08 addr operand, 15c0ce9b jcall modes, 789ebb63 laddr output, ea7651df "
+        "prototype/block callee) are no longer excluded; each is additionally the sole content of an obligation regress.* that must hold "
+        "(FIXED_IN_REPO = False in props/C15.py restores the exclusion and the finding.* obligations for an unrepaired tree)",
         "a nondeterministic read caused by CBMC's handling of item->u.proto->field on small objects would over-approximate (spurious "
         "counterexamples only); none was observed",
     ],
